@@ -135,7 +135,23 @@ class Scenario:
     def post_elab(self, tm):
         """Called after elaboration with the TransactionManager (its transaction list is final)."""
 
-    def run_direct(self, rng, recorded):  # for simulated = False
+    def run_direct(self, rng, recorded):
+        """simulated = False: an order-of-operations scenario without a clock.  One "cycle" is one
+        operation: stimulus(rng, i) generates it (a JSON-able dict), apply(i, op) executes it on the
+        real object and the model, raises Violation on disagreement and returns what was observed."""
+        n = len(recorded) if recorded is not None else self.cycles()
+        for i in range(n):
+            self.res["cycles"] = i
+            op = recorded[i] if recorded is not None else self.stimulus(rng, i)
+            self.res["stimulus"].append(op)
+            out = self.apply(i, op)
+            self.hasher.update(repr((i, sorted(op.items()), out)).encode())
+            if self.keep_log:
+                self.res["log"].append({"cycle": i, "stim": op, "obs": out})
+        self.res["cycles"] = n
+        self.finish()
+
+    def apply(self, i: int, op: dict):
         raise NotImplementedError
 
     # -- helpers ------------------------------------------------------------------------
@@ -242,6 +258,7 @@ def _execute(prop, scen: Scenario, cfg, rng, recorded, res, hasher, keep_log, ma
     if not scen.simulated:
         scen.res = res
         scen.hasher = hasher
+        scen.keep_log = keep_log
         scen.run_direct(rng, recorded)
         return
 
